@@ -63,7 +63,7 @@ theorem isCheck_iff_mod {minI freq k : Nat} :
   simp [isCheck]
 
 /-- the checks are exactly `minI, minI + freq, minI + 2·freq, …` -/
-theorem isCheck_iff {minI freq k : Nat} (hf : 1 ≤ freq) :
+theorem isCheck_iff {minI freq k : Nat} :
     isCheck minI freq k = true ↔ ∃ i, k = minI + i * freq := by
   rw [isCheck_iff_mod]
   constructor
@@ -103,7 +103,7 @@ theorem lastChk_eq_of_no_check {minI freq c : Nat} :
     first check (`k = minI`), which compares with the initial vector. -/
 theorem lastChk_of_isCheck {minI freq k : Nat} (hf : 1 ≤ freq) (hk : isCheck minI freq k = true) :
     lastChk minI freq k = if k ≤ minI then 0 else k - freq := by
-  obtain ⟨i, rfl⟩ := (isCheck_iff hf).mp hk
+  obtain ⟨i, rfl⟩ := isCheck_iff.mp hk
   cases i with
   | zero =>
     simp only [Nat.zero_mul, Nat.add_zero, Nat.le_refl, if_true]
@@ -121,13 +121,13 @@ theorem lastChk_of_isCheck {minI freq k : Nat} (hf : 1 ≤ freq) (hk : isCheck m
     rw [hprev]
     rw [lastChk_eq_of_no_check (c := minI + i * freq + 1) (minI + (i + 1) * freq)
       (by rw [hmul]; omega)]
-    · rw [lastChk_succ, (isCheck_iff hf).mpr ⟨i, rfl⟩]; simp
+    · rw [lastChk_succ, isCheck_iff.mpr ⟨i, rfl⟩]; simp
     · intro j h1 h2
       cases hc : isCheck minI freq j with
       | false => rfl
       | true =>
         exfalso
-        obtain ⟨i', hi'⟩ := (isCheck_iff hf).mp hc
+        obtain ⟨i', hi'⟩ := isCheck_iff.mp hc
         subst hi'
         rw [hmul] at h2
         have hlo : i * freq < i' * freq := by omega
@@ -175,7 +175,7 @@ theorem computeLoop_succ (fuel : Nat) (s : LoopState α) :
       else if stopOK e minI freq flatTail nl s then (checkedState minI freq nl s, .criteria)
       else computeLoop ct ap q e minI freq maxI flatTail nl fuel
         (advance ct ap q minI freq nl s) := by
-  rw [computeLoop]
+  conv => lhs; unfold computeLoop
   cases hc : isCheck minI freq s.iter <;> cases maxI <;>
     simp [maxHit, stopNF, stopOK, checkedState, advance, hc]
 
@@ -480,5 +480,448 @@ theorem stopAt_false_iff (t0 : List (Entry α)) (k : Nat) :
     cases flatAt ct ap q minI freq flatTail nl t0 k <;> simp
 
 end loop
+
+/-! ### the loop started in the initial state -/
+
+omit [Scalar α] in
+theorem maxHit_some (m k : Nat) : maxHit (some m) k = decide (k ≥ m) := rfl
+omit [Scalar α] in
+theorem maxHit_none (k : Nat) : maxHit none k = false := rfl
+
+omit [Scalar α] in
+theorem le_of_maxHit_false {maxI : Option Nat} {K : Nat} (h : ∀ k < K, maxHit maxI k = false)
+    {m : Nat} (hm : maxI = some m) : K ≤ m := by
+  subst hm
+  by_contra hlt
+  have := h m (by omega)
+  simp [maxHit_some] at this
+
+omit [Scalar α] in
+theorem lt_of_maxHit_false {maxI : Option Nat} {K : Nat} (h : maxHit maxI K = false)
+    {m : Nat} (hm : maxI = some m) : K < m := by
+  subst hm
+  simpa [maxHit_some] using h
+
+omit [Scalar α] in
+theorem eq_of_maxHit_true {maxI : Option Nat} {K : Nat} (h : ∀ k < K, maxHit maxI k = false)
+    (hK : maxHit maxI K = true) : maxI = some K := by
+  cases maxI with
+  | none => simp [maxHit_none] at hK
+  | some m =>
+    have h1 := le_of_maxHit_false h rfl
+    have h2 : K ≥ m := by simpa [maxHit_some] using hK
+    congr 1; omega
+
+omit [Scalar α] in
+theorem sched_eq_nil {minI freq k : Nat} (h : k ≤ minI) : sched minI freq k = [] := by
+  apply List.eq_nil_iff_forall_not_mem.mpr
+  intro j hj
+  obtain ⟨h1, h2⟩ := mem_sched.mp hj
+  have := (isCheck_iff_mod.mp h2).1
+  omega
+
+section loop
+variable (ct : List (Row α)) (ap : List (Entry α)) (q e : α) (minI freq : Nat)
+  (maxI : Option Nat) (flatTail nl : Nat)
+
+/-- Complete description of the result of the loop started in the initial state. -/
+theorem loop_spec (fuel : Nat) (t0 : List (Entry α)) (s : LoopState α) (by_ : EndedBy)
+    (h : computeLoop ct ap q e minI freq maxI flatTail nl fuel (initState t0) = (s, by_)) :
+    s.iter ≤ fuel ∧
+    (∀ k, k < s.iter → maxHit maxI k = false ∧ stopAt ct ap q e minI freq flatTail nl t0 k = false) ∧
+    s.t1 = iterate ct ap q s.iter t0 ∧
+    s.stats = ftFold (s.checks.reverse.map (obsAt ct ap q minI freq nl t0)) ∧
+    (by_ = .outOfFuel → s.iter = fuel ∧ s.checks = sched minI freq s.iter) ∧
+    (by_ = .maxIterations → s.iter < fuel ∧ maxHit maxI s.iter = true ∧
+        s.checks = sched minI freq s.iter) ∧
+    (by_ = .nonFinite → s.iter < fuel ∧ maxHit maxI s.iter = false ∧
+        isCheck minI freq s.iter = true ∧ nonFiniteAt ct ap q minI freq t0 s.iter = true ∧
+        s.checks = sched minI freq (s.iter + 1)) ∧
+    (by_ = .criteria → s.iter < fuel ∧ maxHit maxI s.iter = false ∧
+        isCheck minI freq s.iter = true ∧ nonFiniteAt ct ap q minI freq t0 s.iter = false ∧
+        convergedAt ct ap q e minI freq t0 s.iter = true ∧
+        flatAt ct ap q minI freq flatTail nl t0 s.iter = true ∧
+        s.checks = sched minI freq (s.iter + 1)) := by
+  obtain ⟨K, hK, hbefore, hend⟩ :=
+    computeLoop_char ct ap q e minI freq maxI flatTail nl fuel _ s by_ h
+  change ∀ j < K, maxHit maxI (stateAt ct ap q minI freq nl t0 j).iter = false ∧
+      stopNF minI freq nl (stateAt ct ap q minI freq nl t0 j) = false ∧
+      stopOK e minI freq flatTail nl (stateAt ct ap q minI freq nl t0 j) = false at hbefore
+  have hbefore' : ∀ k, k < K → maxHit maxI k = false ∧
+      stopAt ct ap q e minI freq flatTail nl t0 k = false := by
+    intro k hk
+    obtain ⟨h1, h2, h3⟩ := hbefore k hk
+    rw [stateAt_iter] at h1
+    exact ⟨h1, (stopAt_false_iff ct ap q e minI freq flatTail nl t0 k).mpr ⟨h2, h3⟩⟩
+  change (by_ = .outOfFuel ∧ K = fuel ∧ s = stateAt ct ap q minI freq nl t0 K) ∨
+    (by_ = .maxIterations ∧ K < fuel ∧
+      maxHit maxI (stateAt ct ap q minI freq nl t0 K).iter = true ∧
+      s = stateAt ct ap q minI freq nl t0 K) ∨
+    (by_ = .nonFinite ∧ K < fuel ∧
+      maxHit maxI (stateAt ct ap q minI freq nl t0 K).iter = false ∧
+      stopNF minI freq nl (stateAt ct ap q minI freq nl t0 K) = true ∧
+      s = checkedState minI freq nl (stateAt ct ap q minI freq nl t0 K)) ∨
+    (by_ = .criteria ∧ K < fuel ∧
+      maxHit maxI (stateAt ct ap q minI freq nl t0 K).iter = false ∧
+      stopNF minI freq nl (stateAt ct ap q minI freq nl t0 K) = false ∧
+      stopOK e minI freq flatTail nl (stateAt ct ap q minI freq nl t0 K) = true ∧
+      s = checkedState minI freq nl (stateAt ct ap q minI freq nl t0 K)) at hend
+  rcases hend with ⟨rfl, rfl, rfl⟩ | ⟨rfl, hlt, hmax, rfl⟩ | ⟨rfl, hlt, hmax, hnf, rfl⟩ |
+    ⟨rfl, hlt, hmax, hnf, hok, rfl⟩
+  · refine ⟨by simp, by simpa using hbefore', by simp, ?_, ?_, nofun, nofun, nofun⟩
+    · rw [stateAt_stats, stateAt_checks]; rfl
+    · intro _; simp [stateAt_checks]
+  · rw [stateAt_iter] at hmax
+    refine ⟨by simp; omega, by simpa using hbefore', by simp, ?_, nofun, ?_, nofun, nofun⟩
+    · rw [stateAt_stats, stateAt_checks]; rfl
+    · intro _; simp [stateAt_checks, hmax, hlt]
+  · rw [stateAt_iter] at hmax
+    rw [stopNF_stateAt, Bool.and_eq_true] at hnf
+    refine ⟨by simp; omega, by simpa using hbefore', by simp, ?_, nofun, nofun, ?_, nofun⟩
+    · rw [checked_stats, checked_checks]; rfl
+    · intro _; simp [checked_checks, hmax, hlt, hnf.1, hnf.2]
+  · rw [stateAt_iter] at hmax
+    rw [stopNF_stateAt] at hnf
+    rw [stopOK_stateAt, Bool.and_eq_true, Bool.and_eq_true] at hok
+    have hnf' : nonFiniteAt ct ap q minI freq t0 K = false := by
+      rw [hok.1.1] at hnf; simpa using hnf
+    refine ⟨by simp; omega, by simpa using hbefore', by simp, ?_, nofun, nofun, nofun, ?_⟩
+    · rw [checked_stats, checked_checks]; rfl
+    · intro _; simp [checked_checks, hmax, hlt, hok.1.1, hok.1.2, hok.2, hnf']
+
+/-- The loop stops at the *first* iteration `K` at which the iteration limit is reached or a
+    scheduled check ends it (given enough fuel). -/
+theorem loop_first (fuel : Nat) (t0 : List (Entry α)) (K : Nat) (hK : K < fuel)
+    (hbefore : ∀ k, k < K → maxHit maxI k = false ∧
+      stopAt ct ap q e minI freq flatTail nl t0 k = false)
+    (hat : maxHit maxI K = true ∨ stopAt ct ap q e minI freq flatTail nl t0 K = true)
+    (s : LoopState α) (by_ : EndedBy)
+    (h : computeLoop ct ap q e minI freq maxI flatTail nl fuel (initState t0) = (s, by_)) :
+    s.iter = K ∧ by_ ≠ .outOfFuel ∧ (by_ = .maxIterations ↔ maxHit maxI K = true) := by
+  obtain ⟨hfuel, hbef, _, _, hof, hmx, hnf, hcr⟩ :=
+    loop_spec ct ap q e minI freq maxI flatTail nl fuel t0 s by_ h
+  have hiter : s.iter = K := by
+    rcases Nat.lt_trichotomy s.iter K with hlt | heq | hgt
+    · exfalso
+      obtain ⟨b1, b2⟩ := hbefore s.iter hlt
+      cases by_ with
+      | outOfFuel => have := (hof rfl).1; omega
+      | maxIterations => have := (hmx rfl).2.1; rw [b1] at this; cases this
+      | nonFinite =>
+        obtain ⟨_, _, c1, c2, _⟩ := hnf rfl
+        simp [stopAt, c1, c2] at b2
+      | criteria =>
+        obtain ⟨_, _, c1, c2, c3, c4, _⟩ := hcr rfl
+        simp [stopAt, c1, c2, c3, c4] at b2
+    · exact heq
+    · exfalso
+      obtain ⟨b1, b2⟩ := hbef K hgt
+      rcases hat with h1 | h1
+      · rw [b1] at h1; cases h1
+      · rw [b2] at h1; cases h1
+  refine ⟨hiter, ?_, ?_⟩
+  · rintro rfl; have := (hof rfl).1; omega
+  · constructor
+    · rintro rfl; rw [← hiter]; exact (hmx rfl).2.1
+    · intro hm
+      cases by_ with
+      | outOfFuel => have := (hof rfl).1; omega
+      | maxIterations => rfl
+      | nonFinite => have := (hnf rfl).2.1; rw [hiter, hm] at this; cases this
+      | criteria => have := (hcr rfl).2.1; rw [hiter, hm] at this; cases this
+
+/-- `WithIterations n` (`minIterations = maxIterations = n`): exactly `n` iterations, ended by
+    the iteration limit, and no check is performed at all. -/
+theorem loop_withIterations (n fuel : Nat) (hfuel : n < fuel) (t0 : List (Entry α))
+    (s : LoopState α) (by_ : EndedBy)
+    (h : computeLoop ct ap q e n freq (some n) flatTail nl fuel (initState t0) = (s, by_)) :
+    s.iter = n ∧ by_ = .maxIterations ∧ s.checks = [] ∧ s.t1 = iterate ct ap q n t0 := by
+  have hnc : ∀ k, k < n → isCheck n freq k = false := by
+    intro k hk
+    cases hc : isCheck n freq k with
+    | false => rfl
+    | true => have := (isCheck_iff_mod.mp hc).1; omega
+  obtain ⟨h1, _, h3⟩ := loop_first ct ap q e n freq (some n) flatTail nl fuel t0 n hfuel
+    (fun k hk => ⟨by simp [maxHit_some]; omega, by simp [stopAt, hnc k hk]⟩)
+    (Or.inl (by simp [maxHit_some])) s by_ h
+  have hby : by_ = .maxIterations := h3.mpr (by simp [maxHit_some])
+  obtain ⟨_, _, ht, _, _, hmx, _, _⟩ :=
+    loop_spec ct ap q e n freq (some n) flatTail nl fuel t0 s by_ h
+  refine ⟨h1, hby, ?_, by rw [ht, h1]⟩
+  rw [(hmx hby).2.2, h1]
+  exact sched_eq_nil (le_refl n)
+
+end loop
+
+/-! ### `compute`: validation, then the loop -/
+
+/-- the validations of `Compute` in source order (eigentrust.go 194-211, 228-252):
+    the first one that fails, as the error returned. -/
+def validate (c : CSM α) (p : Vec α) (a e : α) (o : ComputeOpts α) : Option SErr :=
+  if c.major ≠ c.minor then some .dimMismatch
+  else if c.major = 0 then some .emptyLocalTrust
+  else if p.dim ≠ c.major
+      || (match o.t0 with | some t0 => decide (t0.dim ≠ c.major) | none => false)
+      || (match o.resultDim with | some d => decide (d ≠ c.major) | none => false) then
+    some .dimMismatch
+  else if lt a zero || lt one a then some (.badParam "alpha")
+  else if le e zero then some (.badParam "epsilon")
+  else if o.checkFreq.getD 1 < 1 then some (.badParam "checkFreq")
+  else if o.maxIterations.getD 0 < 0 then some (.badParam "maxIterations")
+  else if o.minIterations.getD (o.checkFreq.getD 1) ≤ 0 then some (.badParam "minIterations")
+  else none
+
+/-- the loop `compute` runs once the validations have passed -/
+def loopOf (fuel : Nat) (c : CSM α) (p : Vec α) (a e : α) (o : ComputeOpts α) :
+    LoopState α × EndedBy :=
+  computeLoop c.transpose.rows (Vec.scale a p).entries (sub one a) e
+    (o.minIterations.getD (o.checkFreq.getD 1)).toNat (o.checkFreq.getD 1).toNat
+    (if o.maxIterations.getD 0 = 0 then none else some (o.maxIterations.getD 0).toNat)
+    o.flatTail (if o.numLeaders = 0 then c.major else o.numLeaders) fuel
+    (initState (o.t0.getD p).entries)
+
+theorem validate_chain {R : Type} (b2 b3 b4 b5 b6 b7 b8 : Prop)
+    [Decidable b2] [Decidable b3] [Decidable b4] [Decidable b5] [Decidable b6] [Decidable b7]
+    [Decidable b8] (e2 e3 e4 e5 e6 e7 e8 : SErr) (X : Except SErr R) :
+    (if b2 then .error e2 else if b3 then .error e3 else if b4 then .error e4
+      else if b5 then .error e5 else if b6 then .error e6 else if b7 then .error e7
+      else if b8 then .error e8 else X) =
+    match (if b2 then some e2 else if b3 then some e3 else if b4 then some e4
+      else if b5 then some e5 else if b6 then some e6 else if b7 then some e7
+      else if b8 then some e8 else none : Option SErr) with
+    | some err => .error err
+    | none => X := by
+  split_ifs <;> rfl
+
+theorem compute_eq (fuel : Nat) (c : CSM α) (p : Vec α) (a e : α) (o : ComputeOpts α) :
+    compute fuel c p a e o =
+      match validate c p a e o with
+      | some err => .error err
+      | none =>
+        match loopOf fuel c p a e o with
+        | (s, by_) =>
+          if by_ = .nonFinite then .error (.badParam "nonfinite")
+          else .ok ⟨⟨c.major, s.t1⟩, s.iter, s.stats, s.checks.reverse, by_⟩ := by
+  by_cases h1 : c.major = c.minor
+  · have hd : c.dim = .ok c.major := by simp [CSM.dim, h1]
+    have h1' : ¬ (c.major ≠ c.minor) := by simp [h1]
+    unfold compute validate
+    rw [hd, if_neg h1']
+    dsimp only
+    exact validate_chain _ _ _ _ _ _ _ _ _ _ _ _ _ _ _
+  · simp [compute, validate, CSM.dim, h1]
+
+/-- every validation of `Compute` passes -/
+def ValidInput (c : CSM α) (p : Vec α) (a e : α) (o : ComputeOpts α) : Prop :=
+  c.major = c.minor ∧ c.major ≠ 0 ∧ p.dim = c.major ∧
+  (∀ t0, o.t0 = some t0 → t0.dim = c.major) ∧ (∀ d, o.resultDim = some d → d = c.major) ∧
+  lt a zero = false ∧ lt one a = false ∧ le e zero = false ∧
+  1 ≤ o.checkFreq.getD 1 ∧ 0 ≤ o.maxIterations.getD 0 ∧
+  0 < o.minIterations.getD (o.checkFreq.getD 1)
+
+theorem validate_eq_none_iff (c : CSM α) (p : Vec α) (a e : α) (o : ComputeOpts α) :
+    validate c p a e o = none ↔ ValidInput c p a e o := by
+  unfold validate ValidInput
+  constructor
+  · intro h
+    split_ifs at h with h1 h2 h3 h4 h5 h6 h7 h8
+    simp only [Bool.or_eq_true, not_or, Bool.not_eq_true] at h3 h4
+    refine ⟨by simpa using h1, h2, by simpa using h3.1.1, ?_, ?_, h4.1, h4.2, by simpa using h5,
+      by omega, by omega, by omega⟩
+    · intro t0 ht0
+      have := h3.1.2
+      rw [ht0] at this
+      simpa using this
+    · intro d hd
+      have := h3.2
+      rw [hd] at this
+      simpa using this
+  · rintro ⟨h1, h2, h3, h4, h5, h6, h7, h8, h9, h10, h11⟩
+    have c3 : (decide (p.dim ≠ c.major)
+        || (match o.t0 with | some t0 => decide (t0.dim ≠ c.major) | none => false)
+        || (match o.resultDim with | some d => decide (d ≠ c.major) | none => false)) = false := by
+      have a1 : (match o.t0 with | some t0 => decide (t0.dim ≠ c.major) | none => false) = false := by
+        cases ht : o.t0 with
+        | none => rfl
+        | some t0 => simp [h4 t0 ht]
+      have a2 : (match o.resultDim with | some d => decide (d ≠ c.major) | none => false) = false := by
+        cases hd : o.resultDim with
+        | none => rfl
+        | some d => simp [h5 d hd]
+      rw [a1, a2]; simp [h3]
+    rw [if_neg (by simp [h1]), if_neg h2, if_neg (by rw [c3]; simp), if_neg (by simp [h6, h7]),
+      if_neg (by simp [h8]), if_neg (by omega), if_neg (by omega), if_neg (by omega)]
+
+/-- an input that fails a validation is rejected with an error that does not depend on the
+    fuel: no iteration is performed (in particular `compute 0 …` already returns it). -/
+theorem compute_error_of_not_valid (c : CSM α) (p : Vec α) (a e : α) (o : ComputeOpts α)
+    (h : ¬ ValidInput c p a e o) : ∃ err, ∀ fuel, compute fuel c p a e o = .error err := by
+  cases hv : validate c p a e o with
+  | none => exact absurd ((validate_eq_none_iff c p a e o).mp hv) h
+  | some err => exact ⟨err, fun fuel => by rw [compute_eq, hv]⟩
+
+theorem compute_of_valid (fuel : Nat) (c : CSM α) (p : Vec α) (a e : α) (o : ComputeOpts α)
+    (h : ValidInput c p a e o) :
+    compute fuel c p a e o =
+      match loopOf fuel c p a e o with
+      | (s, by_) =>
+        if by_ = .nonFinite then .error (.badParam "nonfinite")
+        else .ok ⟨⟨c.major, s.t1⟩, s.iter, s.stats, s.checks.reverse, by_⟩ := by
+  rw [compute_eq, (validate_eq_none_iff c p a e o).mpr h]
+
+theorem compute_ok_of_loop (fuel : Nat) (c : CSM α) (p : Vec α) (a e : α) (o : ComputeOpts α)
+    (hv : ValidInput c p a e o) (s : LoopState α) (by_ : EndedBy)
+    (hl : loopOf fuel c p a e o = (s, by_)) (hnf : by_ ≠ .nonFinite) :
+    compute fuel c p a e o = .ok ⟨⟨c.major, s.t1⟩, s.iter, s.stats, s.checks.reverse, by_⟩ := by
+  rw [compute_of_valid fuel c p a e o hv, hl]
+  simp [hnf]
+
+theorem compute_error_of_nonFinite (fuel : Nat) (c : CSM α) (p : Vec α) (a e : α)
+    (o : ComputeOpts α) (hv : ValidInput c p a e o) (s : LoopState α)
+    (hl : loopOf fuel c p a e o = (s, .nonFinite)) :
+    compute fuel c p a e o = .error (.badParam "nonfinite") := by
+  rw [compute_of_valid fuel c p a e o hv, hl]
+  simp
+
+/-- a successful `compute` passed every validation and returns the loop's result -/
+theorem compute_ok_inv (fuel : Nat) (c : CSM α) (p : Vec α) (a e : α) (o : ComputeOpts α)
+    (r : ComputeResult α) (h : compute fuel c p a e o = .ok r) :
+    ValidInput c p a e o ∧ r.endedBy ≠ .nonFinite ∧
+      ∃ s, loopOf fuel c p a e o = (s, r.endedBy) ∧
+        r = ⟨⟨c.major, s.t1⟩, s.iter, s.stats, s.checks.reverse, r.endedBy⟩ := by
+  by_cases hv : ValidInput c p a e o
+  · refine ⟨hv, ?_⟩
+    rw [compute_of_valid fuel c p a e o hv] at h
+    cases hl : loopOf fuel c p a e o with
+    | mk s by_ =>
+      rw [hl] at h
+      by_cases hnf : by_ = .nonFinite
+      · simp [hnf] at h
+      · simp only [hnf, if_false] at h
+        cases h
+        exact ⟨hnf, s, rfl, rfl⟩
+  · obtain ⟨err, herr⟩ := compute_error_of_not_valid c p a e o hv
+    rw [herr fuel] at h
+    cases h
+
+/-! ### the flat-tail verdict in closed form -/
+
+theorem sched_eq_of_no_check {minI freq c : Nat} :
+    ∀ k, c ≤ k → (∀ j, c ≤ j → j < k → isCheck minI freq j = false) →
+      sched minI freq k = sched minI freq c := by
+  intro k
+  induction k with
+  | zero => intro h _; have : c = 0 := by omega
+            subst this; rfl
+  | succ k ih =>
+    intro h hn
+    rcases Nat.lt_or_ge k c with hk | hk
+    · have : c = k + 1 := by omega
+      subst this; rfl
+    · rw [sched_succ, hn k hk (by omega)]
+      simp only [Bool.false_eq_true, if_false]
+      exact ih hk (fun j h1 h2 => hn j h1 (by omega))
+
+/-- there is no scheduled check strictly between two consecutive ones -/
+theorem isCheck_gap {minI freq i j : Nat} (h1 : minI + i * freq < j)
+    (h2 : j < minI + (i + 1) * freq) : isCheck minI freq j = false := by
+  cases hc : isCheck minI freq j with
+  | false => rfl
+  | true =>
+    exfalso
+    obtain ⟨i', hi'⟩ := isCheck_iff.mp hc
+    subst hi'
+    have hlo : i * freq < i' * freq := by omega
+    have hhi : i' * freq < (i + 1) * freq := by omega
+    have h3 : i < i' := Nat.lt_of_mul_lt_mul_right hlo
+    have h4 : i' < i + 1 := Nat.lt_of_mul_lt_mul_right hhi
+    omega
+
+section flat
+variable (ct : List (Row α)) (ap : List (Entry α)) (q : α) (minI freq : Nat) (nl : Nat)
+
+theorem statsBefore_first (t0 : List (Entry α)) :
+    statsBefore ct ap q minI freq nl t0 minI = FlatTailStats.init := by
+  unfold statsBefore
+  rw [sched_eq_nil (le_refl minI)]
+  rfl
+
+theorem statsBefore_ranking (t0 : List (Entry α)) (k : Nat) (hk : isCheck minI freq k = true) :
+    (statsBefore ct ap q minI freq nl t0 (k + 1)).ranking
+      = some (rankOf (iterate ct ap q k t0) nl) := by
+  rw [statsBefore_succ, if_pos hk]
+  unfold FlatTailStats.update
+  split
+  · assumption
+  · rfl
+
+theorem statsBefore_next_check (hf : 1 ≤ freq) (t0 : List (Entry α)) (i : Nat) :
+    statsBefore ct ap q minI freq nl t0 (minI + (i + 1) * freq)
+      = statsBefore ct ap q minI freq nl t0 (minI + i * freq + 1) := by
+  have hmul : (i + 1) * freq = i * freq + freq := Nat.succ_mul i freq
+  unfold statsBefore
+  rw [sched_eq_of_no_check (c := minI + i * freq + 1) (minI + (i + 1) * freq)
+    (by rw [hmul]; omega) (fun j h1 h2 => isCheck_gap (by omega) h2)]
+
+/-- At the `i`-th scheduled check (`k = minI + i·freq`) the statistics have `length ≥ L` iff
+    there were at least `L` earlier checks and the rankings at the last `L+1` checks
+    `k, k − freq, …, k − L·freq` are identical. -/
+theorem flat_length_iff (hf : 1 ≤ freq) (t0 : List (Entry α)) :
+    ∀ (L i : Nat),
+      L ≤ (statsBefore ct ap q minI freq nl t0 (minI + i * freq + 1)).length ↔
+        L ≤ i ∧ ∀ j, j ≤ L →
+          rankOf (iterate ct ap q (minI + (i - j) * freq) t0) nl
+            = rankOf (iterate ct ap q (minI + i * freq) t0) nl := by
+  intro L
+  induction L with
+  | zero =>
+    intro i
+    simp only [Nat.zero_le, true_and, true_iff]
+    intro j hj
+    have : j = 0 := by omega
+    subst this; rfl
+  | succ L ih =>
+    intro i
+    have hck : ∀ i', isCheck minI freq (minI + i' * freq) = true :=
+      fun i' => isCheck_iff.mpr ⟨i', rfl⟩
+    cases i with
+    | zero =>
+      simp only [Nat.zero_mul, Nat.add_zero]
+      rw [statsBefore_succ, if_pos (by simpa using hck 0), statsBefore_first]
+      simp [FlatTailStats.update, FlatTailStats.init]
+    | succ i =>
+      rw [statsBefore_succ, if_pos (hck (i + 1)), statsBefore_next_check _ _ _ _ _ _ hf]
+      have hr := statsBefore_ranking ct ap q minI freq nl t0 (minI + i * freq) (hck i)
+      unfold FlatTailStats.update
+      rw [hr]
+      by_cases heq : rankOf (iterate ct ap q (minI + i * freq) t0) nl
+          = rankOf (iterate ct ap q (minI + (i + 1) * freq) t0) nl
+      · rw [if_pos (by rw [heq])]
+        simp only [Nat.add_le_add_iff_right]
+        rw [ih i]
+        constructor
+        · rintro ⟨h1, h2⟩
+          refine ⟨h1, ?_⟩
+          intro j hj
+          cases j with
+          | zero => rfl
+          | succ j =>
+            have := h2 j (by omega)
+            have e : i + 1 - (j + 1) = i - j := by omega
+            rw [e, this, heq]
+        · rintro ⟨h1, h2⟩
+          refine ⟨h1, ?_⟩
+          intro j hj
+          have := h2 (j + 1) (by omega)
+          have e : i + 1 - (j + 1) = i - j := by omega
+          rw [e] at this
+          rw [this, heq]
+      · rw [if_neg (by intro h; exact heq (Option.some.inj h))]
+        simp only [Nat.le_zero_eq, Nat.add_one_ne_zero, false_iff, not_and, not_forall]
+        intro _
+        refine ⟨1, by omega, ?_⟩
+        simpa using heq
+
+end flat
 
 end EtVerif
